@@ -23,10 +23,6 @@ import (
 // Reference: https://github.com/coregx/coregex/issues/72
 type CompositeSearcher struct {
 	parts []*charClassPart
-
-	// matchLengths is pre-allocated scratch space for backtracking.
-	// Reused across calls to avoid per-match allocations.
-	matchLengths []int
 }
 
 // charClassPart represents one segment of a composite pattern.
@@ -53,8 +49,7 @@ func NewCompositeSearcher(re *syntax.Regexp) *CompositeSearcher {
 	}
 
 	return &CompositeSearcher{
-		parts:        parts,
-		matchLengths: make([]int, len(parts)), // Pre-allocate to avoid per-match allocation
+		parts: parts,
 	}
 }
 
@@ -212,15 +207,13 @@ func (c *CompositeSearcher) SearchAt(haystack []byte, at int) (int, int, bool) {
 // consumes all 6 characters. Backtracking gives back digits until
 // [0-9]+ can match its minimum (1 character).
 func (c *CompositeSearcher) matchAt(haystack []byte, pos int) (int, bool) {
-	// Reset pre-allocated matchLengths (faster than allocating new slice)
-	for i := range c.matchLengths {
-		c.matchLengths[i] = 0
-	}
-	return c.matchAtWithBacktrack(haystack, pos, 0, c.matchLengths)
+	// No scratch is kept in the searcher: it is shared by every goroutine using
+	// the Regex, and the per-part lengths were only ever written, never read.
+	return c.matchAtWithBacktrack(haystack, pos, 0)
 }
 
 // matchAtWithBacktrack recursively matches parts with backtracking support.
-func (c *CompositeSearcher) matchAtWithBacktrack(haystack []byte, pos int, partIdx int, matchLengths []int) (int, bool) {
+func (c *CompositeSearcher) matchAtWithBacktrack(haystack []byte, pos int, partIdx int) (int, bool) {
 	if partIdx >= len(c.parts) {
 		// All parts matched successfully
 		return pos, true
@@ -243,8 +236,7 @@ func (c *CompositeSearcher) matchAtWithBacktrack(haystack []byte, pos int, partI
 
 	// Try from greedy (max) down to minimum, backtracking if next parts fail
 	for tryLen := canConsume; tryLen >= part.minMatch; tryLen-- {
-		matchLengths[partIdx] = tryLen
-		if end, ok := c.matchAtWithBacktrack(haystack, pos+tryLen, partIdx+1, matchLengths); ok {
+		if end, ok := c.matchAtWithBacktrack(haystack, pos+tryLen, partIdx+1); ok {
 			return end, true
 		}
 	}
